@@ -516,6 +516,11 @@ func (s *Server) cmdEvalUnified(scriptIsSha bool, msg *Message) (res resp.Value,
 
 	luaState.Get(lua.RegistryIndex).(*lua.LTable).RawSetString(
 		luaEvalCmdRegistryKey, lua.LString(msg.Command()))
+	// The state goes back to the pool and is used for WHEREEVAL clauses of
+	// read commands next: it must not keep this call's kind, or such a clause
+	// could write through tile38.call.
+	defer luaState.Get(lua.RegistryIndex).(*lua.LTable).RawSetString(
+		luaEvalCmdRegistryKey, lua.LNil)
 
 	compiled, ok := s.luascripts.Get(shaSum)
 	var fn *lua.LFunction
